@@ -4,7 +4,7 @@ Entries are matched by the *shape of the path condition*, not by function names 
 renaming or moving the helper keeps them valid, while changing a literal or the shape of the
 reduction invalidates them (the site is then reported as open)."""
 import math
-from . import vg
+from . import vg, norm
 from .terms import mk, tag, all_nodes
 
 def _f64(t):
@@ -32,7 +32,8 @@ def match_exp_reduction(cond, st, hooks):
         two = vg.f64c(2.0)
         xhi = mk("field", x, 0)
         want = mk("f", "div", mk("call", "libm::round", mk("f", "mul", two, xhi)), two)
-        if h is not want:
+        nz = norm.Normalizer("E")
+        if nz.norm(h) is not nz.norm(want):      # y / 2.0 and y * 0.5 are the same f64
             continue
         cv = _f64(c[4])
         if not (cv >= 0.25 + 2.0 ** -40):
